@@ -2,6 +2,7 @@
    no comments, no directives, one pass), with the logical lines the parser is expected to produce.
      stmts ::= ε | Identifier `;` stmts | Identifier `:=` Identifier `;` stmts | `begin` stmts `end` `;` stmts
              | `repeat` stmts `until` Identifier `;` stmts | `try` stmts `finally` stmts `end` `;` stmts
+             | `try` stmts `except` stmts `end` `;` stmts
              | `if` Identifier `then` body `;` stmts | `if` Identifier `then` body `else` body `;` stmts
              | `while` Identifier `do` body `;` stmts
      body  ::= Identifier | Identifier `:=` Identifier | `begin` stmts `end`
@@ -19,6 +20,7 @@ Inductive stmts : Set :=
   | SBlock (body rest : stmts)             (* begin body end ; *)
   | SRepeat (body rest : stmts)            (* repeat body until Identifier ; *)
   | STry (body fin rest : stmts)           (* try body finally fin end ; *)
+  | STryExcept (body exc rest : stmts)     (* try body except exc end ; *)
   | SIf (c : tbody) (rest : stmts)         (* if Identifier then c ; *)
   | SIfElse (c1 c2 : tbody) (rest : stmts) (* if Identifier then c1 else c2 ; *)
   | SWhile (c : tbody) (rest : stmts)      (* while Identifier do c ; *)
@@ -37,6 +39,7 @@ Definition tRepeat := RTT_Keyword KK_Repeat.
 Definition tUntil := RTT_Keyword KK_Until.
 Definition tTry := RTT_Keyword KK_Try.
 Definition tFinally := RTT_Keyword KK_Finally.
+Definition tExcept := RTT_Keyword KK_Except.
 Definition tIf := RTT_Keyword KK_If.
 Definition tThen := RTT_Keyword KK_Then.
 Definition tElse := RTT_Keyword KK_Else.
@@ -51,6 +54,7 @@ Fixpoint render (ss : stmts) : list RawTokenType :=
   | SBlock b r => tBegin :: render b ++ tEnd :: tSemi :: render r
   | SRepeat b r => tRepeat :: render b ++ tUntil :: tI :: tSemi :: render r
   | STry b c r => tTry :: render b ++ tFinally :: render c ++ tEnd :: tSemi :: render r
+  | STryExcept b c r => tTry :: render b ++ tExcept :: render c ++ tEnd :: tSemi :: render r
   | SIf c r => tIf :: tI :: tThen :: render_body c ++ tSemi :: render r
   | SIfElse c1 c2 r => tIf :: tI :: tThen :: render_body c1 ++ tElse :: render_body c2 ++ tSemi :: render r
   | SWhile c r => tWhile :: tI :: tDo :: render_body c ++ tSemi :: render r
@@ -86,7 +90,7 @@ Fixpoint pexpected (par : option (nat * nat)) (d : Z) (k li : nat) (ss : stmts) 
       let e := k + 1 + length (render b) in
       mkLine LLT_Unknown (lvl d) par [k] :: lb
       ++ mkLine LLT_Unknown (lvl d) par [e; e + 1; e + 2] :: pexpected par d (e + 3) (li + 1 + length lb + 1) r
-  | STry b c r =>
+  | STry b c r | STryExcept b c r =>
       let lb := pexpected par (d + 1) (k + 1) (li + 1) b in
       let m := k + 1 + length (render b) in
       let lc := pexpected par (d + 1) (m + 1) (li + 1 + length lb + 1) c in
@@ -145,6 +149,6 @@ Fixpoint child_free (ss : stmts) : bool :=
   | SNil => true
   | SSimple r | SAssign r => child_free r
   | SBlock b r | SRepeat b r => child_free b && child_free r
-  | STry b c r => child_free b && child_free c && child_free r
+  | STry b c r | STryExcept b c r => child_free b && child_free c && child_free r
   | SIf _ _ | SIfElse _ _ _ | SWhile _ _ => false
   end.
